@@ -21,6 +21,8 @@ import (
 	"os"
 	"os/signal"
 	"strings"
+
+	"github.com/dappledger/AnnChain/gemmill/utils/verifhook"
 )
 
 var (
@@ -96,6 +98,7 @@ func MustWriteFile(filePath string, contents []byte, mode os.FileMode) {
 // Guaranteed not to lose *both* oldBytes and newBytes,
 // (assuming that the OS is perfect)
 func WriteFileAtomic(filePath string, newBytes []byte, mode os.FileMode) error {
+	verifhook.Point("wfa:before-bak")
 	// If a file already exists there, copy to filePath+".bak" (overwrite anything)
 	if _, err := os.Stat(filePath); !os.IsNotExist(err) {
 		fileBytes, err := ioutil.ReadFile(filePath)
@@ -107,13 +110,16 @@ func WriteFileAtomic(filePath string, newBytes []byte, mode os.FileMode) error {
 			return fmt.Errorf("Could not write file %v. %v", filePath+".bak", err)
 		}
 	}
+	verifhook.Point("wfa:before-new")
 	// Write newBytes to filePath.new
 	err := ioutil.WriteFile(filePath+".new", newBytes, mode)
 	if err != nil {
 		return fmt.Errorf("Could not write file %v. %v", filePath+".new", err)
 	}
+	verifhook.Point("wfa:before-rename")
 	// Move filePath.new to filePath
 	err = os.Rename(filePath+".new", filePath)
+	verifhook.Point("wfa:after-rename")
 	return err
 }
 
